@@ -1150,6 +1150,11 @@ func main() {
 	all["regexes"] = pats
 	all["dispatch"] = genDispatch()
 	all["facts"] = genConstsFacts()
+	shp := map[string]string{}
+	for _, s := range genShapes(filepath.Join(filepath.Dir(os.Args[3]), "shapes")) {
+		shp[s.Key] = s.Digest
+	}
+	all["shapes"] = shp
 	var ub strings.Builder
 	ub.WriteString("-- GENERATED by tools/extract; do not edit\nnamespace AM.Gen\n\n/-- source shapes the extractor did not recognise (must be empty) -/\ndef unsupported : List String :=\n  [")
 	for i, u := range unsupported {
